@@ -44,7 +44,8 @@ def job_prestate(prog, chk, tier):
                 return {'text': pystr(t) if t is not None else None, 'warnings': len(w)}
             rs = chk.explore(run)
             oks = [r for r in rs if r.kind == 'ok']
-            chk.witness('several pre-states explored', len(oks) >= 6)
+            chk.witness('module generated under a symbolic pre-state', len(oks) >= 1)
+            chk.res.notes.append(f"header '{hdr}': {len(oks)} path(s) - the symbolic pre-state is {'never read (holds for every pre-state)' if len(oks) == 1 else 'read: every value explored'}")
             for r in rs:
                 if r.kind == 'panic':
                     chk.violation(f"C12 prestate panic hdr[{hdr or 'none'}]", f"generate_module panics: {r.value[0]}", {'kind': 'text', 'text': text})
@@ -110,7 +111,8 @@ def judge_imports(items, info, chk, pc, nwarn):
             elif kind == 'value':
                 want.add(s.upper().replace('-', '_'))
             else:
-                want.add(s.replace('-', '_')[0].upper() + s.replace('-', '_')[1:])
+                parts = s.split('-')
+                want.add(''.join(([parts[0][0].upper() + parts[0][1:]] + [p[0].upper() + p[1:] for p in parts[1:]])))
         if wildcard:
             if got != {'*'}:
                 fails.append(('use-line', f"expected wildcard import from {modname}, got {sorted(got)}"))
